@@ -6,7 +6,8 @@ cd /verif
 [ -d $WT ] || git -C /repo worktree add --detach $WT HEAD -q
 for d in seeded/${2:-C*}; do
   id=$(basename $d)
-  prop=$(python3 -c "import json;print(json.load(open('$d/meta.json'))['detection']['caught_by'].split()[2])")
+  prop=$(python3 -c "import json;c=json.load(open('$d/meta.json'))['detection'].get('caught_by');print(c.split()[2] if c else '')")
+  [ -z "$prop" ] && { echo "SKIP $id (recorded as not caught)"; continue; }
   (cd $WT && git checkout -q -- . && git apply /verif/$d/patch.diff) || { echo "NOAPPLY $id"; continue; }
   out=$(VERIF_NO_MIRI=1 VERIF_SEED=$SEED VERIF_REPO=$WT ./check run $prop --tier quick 2>&1)
   if echo "$out" | grep -q "^VIOLATION"; then echo "CAUGHT $id $prop seed=$SEED $(echo "$out" | grep -m1 -o 'check=[a-z_@.0-9:]*')"; else echo "MISSED $id $prop seed=$SEED :: $(echo "$out" | tail -1 | cut -c1-160)"; fi
